@@ -272,21 +272,21 @@ Fixpoint fsm_run_notify_first (cur : status) (rs : list (report * bool)) : list 
    shared by all pipelines of one signal that name the component, a connector node by all pairs of
    pipelines of one (exporter signal, receiver signal) pair: when the node already exists the pipeline(s)
    are ADDED to its InstanceID (WithPipelines returns a new InstanceID, which is stored back); otherwise a
-   new InstanceID naming the pipeline(s) is stored.  Pipelines are nats (signal * 10 + name, < 30), components c < 10; a key
-   identifies the node.  (A processor node is per pipeline; creating the same one twice panics in AddNode,
+   new InstanceID naming the pipeline(s) is stored.  Pipelines are nats (signal * 10 + name, < 30), components c < 10; a key (a binary
+   integer: kind * 1000 + component * 100 + scope) identifies the node.  (A processor node is per pipeline; creating the same one twice panics in AddNode,
    so it never meets an existing entry and the union below is never exercised for it.) *)
 Inductive inst_op :=
 | IRecv (p c : nat) | IProc (p c : nat) | IExp (p c : nat) | IConn (pe pr c : nat).
 
 Definition psignal (p : nat) : nat := Nat.div p 10.
 
-Definition ikey (o : inst_op) : nat :=
-  match o with
-  | IRecv p c => 1000 + c * 100 + psignal p
-  | IProc p c => 2000 + c * 100 + p
-  | IExp p c => 3000 + c * 100 + psignal p
-  | IConn pe pr c => 4000 + c * 100 + psignal pe * 10 + psignal pr
-  end.
+Definition ikey (o : inst_op) : Z :=
+  (match o with
+   | IRecv p c => 1000 + Z.of_nat c * 100 + Z.of_nat (psignal p)
+   | IProc p c => 2000 + Z.of_nat c * 100 + Z.of_nat p
+   | IExp p c => 3000 + Z.of_nat c * 100 + Z.of_nat (psignal p)
+   | IConn pe pr c => 4000 + Z.of_nat c * 100 + Z.of_nat (psignal pe) * 10 + Z.of_nat (psignal pr)
+   end)%Z.
 
 Definition ipipes (o : inst_op) : list nat :=
   match o with
@@ -294,18 +294,18 @@ Definition ipipes (o : inst_op) : list nat :=
   | IConn pe pr _ => [pe; pr]
   end.
 
-Definition imap := list (nat * list nat).
+Definition imap := list (Z * list nat).
 
-Fixpoint iget (k : nat) (m : imap) : option (list nat) :=
+Fixpoint iget (k : Z) (m : imap) : option (list nat) :=
   match m with
   | [] => None
-  | (k', v) :: r => if Nat.eqb k k' then Some v else iget k r
+  | (k', v) :: r => if Z.eqb k k' then Some v else iget k r
   end.
 
-Fixpoint iset (k : nat) (v : list nat) (m : imap) : imap :=
+Fixpoint iset (k : Z) (v : list nat) (m : imap) : imap :=
   match m with
   | [] => [(k, v)]
-  | (k', v') :: r => if Nat.eqb k k' then (k', v) :: r else (k', v') :: iset k v r
+  | (k', v') :: r => if Z.eqb k k' then (k', v) :: r else (k', v') :: iset k v r
   end.
 
 (* addPipelines: the set of pipelines (sorted + compacted in Go; a duplicate-free list here) *)
@@ -319,7 +319,17 @@ Definition inst_step (m : imap) (o : inst_op) : imap :=
 
 Definition inst_run (os : list inst_op) : imap := fold_left inst_step os [].
 
-Definition names (m : imap) (k p : nat) : bool :=
+Definition names (m : imap) (k : Z) (p : nat) : bool :=
   match iget k m with Some ps => existsb (Nat.eqb p) ps | None => false end.
 
-Definition inst_pairs (m : imap) : list (nat * nat) := flat_map (fun kv => map (fun p => (fst kv, p)) (snd kv)) m.
+Definition inst_pairs (m : imap) : list (Z * nat) := flat_map (fun kv => map (fun p => (fst kv, p)) (snd kv)) m.
+
+(* the state of the shared component after a script (sc_run only returns the forwarded reports) *)
+Fixpoint sc_final (h : shared) (os : list sc_op) : shared :=
+  match os with
+  | [] => h
+  | o :: os' => sc_final (fst (sc_step h o)) os'
+  end.
+
+Definition attached (os : list sc_op) : list nat :=
+  flat_map (fun o => match o with ScAttach i => [i] | ScReport _ => [] end) os.
